@@ -20,6 +20,8 @@ func init() {
 		Units: []Unit{
 			{Name: "prefixes@plain,checkptr", Quick: 260, Thorough: 8000, Run: c10Prefixes},
 			{Name: "prefixes-of-65536-chunk-streams@plain", Quick: 4, Thorough: 40, Run: c10HugePrefixes},
+			// valid streams into receivers with a growth history: a decoder must not panic on (or mis-read) them either
+			{Name: "receiver-growth-x-stream-size@plain", ExhaustiveN: growthCases, RunIndexed: func(c *Ctx, i int) { receiverGrowthCase(c, i, i%2 == 1) }},
 			{Name: "corrupt-portable@plain,checkptr", Quick: 4000, Thorough: 300000, Run: c10CorruptPortable},
 			{Name: "corrupt-frozen@plain,checkptr", Quick: 4000, Thorough: 300000, Run: c10CorruptFrozen},
 			{Name: "synthesized-frozen@plain,checkptr", Quick: 2500, Thorough: 300000, Run: c10SynthFrozen},
@@ -112,6 +114,46 @@ func feedAll(c *Ctx, data []byte, sig string, expectReject bool) ([]decOutcome, 
 		}
 	}
 	return out, cleanup
+}
+
+// feedValid feeds a VALID image (portable or frozen) of the set m to every decoder - a quarter of the receivers have
+// been used before - and requires that a decoder that accepts it and whose result validates holds exactly m: a
+// validated bitmap must be the set its bytes encode, not whatever the receiver held before.
+func feedValid(c *Ctx, data []byte, m *ISet, frozen bool, sig string) {
+	outs, done := feedAll(c, data, sig, false)
+	defer done()
+	for _, o := range outs {
+		if c.Failed() {
+			return
+		}
+		isFrozenEntry := o.name == "FrozenView"
+		if o.b == nil {
+			if !frozen && !isFrozenEntry && !o.panicked {
+				c.Fail(sig+"/"+o.name+"/rejects-valid-image", "%s rejects a valid image written by the library (%d bytes): %v", o.name, len(data), o.err)
+			}
+			continue
+		}
+		if isFrozenEntry != frozen {
+			continue // a portable image read as frozen (or the reverse) is just arbitrary bytes for that decoder
+		}
+		var verr error
+		if pv, st := Try(func() { verr = o.b.Validate() }); pv != nil {
+			c.Fail(sig+"/"+o.name+"/Validate-panics", "Validate panicked on a decoded valid image: %v\n%s", pv, st)
+			return
+		}
+		if verr != nil {
+			// a spec-conformant stream of another encoder (non-maximal runs, run chunks that are not the smallest form) is
+			// readable but need not validate: only validated results are judged here
+			c.Count("valid_image_accepted_but_not_canonical")
+			continue
+		}
+		if d := checkEq(o.b, m); d != "" {
+			c.Fail(sig+"/"+o.name+"/validated-bitmap-is-not-the-encoded-set", "%s accepted a valid image and the result validates, but it is not the set the bytes encode: %s", o.name, d)
+			return
+		}
+		c.Eval(2)
+		c.Count("valid_image_decoded_" + o.name)
+	}
 }
 
 // consistency runs the "Validate()==nil means safe to use" battery on an accepted bitmap.
@@ -312,6 +354,10 @@ func c10Prefixes(c *Ctx) {
 		c.Distinct(mix(sumBytes(wire), uint64(k)))
 	}
 	c.CountN("prefixes_fed", int64(len(cuts)))
+	if !c.Failed() {
+		c.Step("the complete valid stream through every decoder (fresh and previously used receivers)")
+		feedValid(c, wire, m, false, "valid-portable")
+	}
 }
 
 func put16(b []byte, off int, v int) {
@@ -720,7 +766,7 @@ func corruptFrozen(r *Rng, w []byte, fi *frozenInfo) ([]byte, string) {
 func c10CorruptFrozen(c *Ctx) {
 	r := c.R
 	m, _ := genSet(r, GenOpts{MaxChunks: 5, HeavyP: 0.35})
-	if m.IsEmpty() {
+	if m.IsEmpty() && r.Chance(0.6) {
 		m.Add(r.Range(0, max32))
 	}
 	bm, es := buildForm(r, m, []string{"addmany", "opt", "range", "mixed"}[r.Intn(4)])
@@ -735,6 +781,13 @@ func c10CorruptFrozen(c *Ctx) {
 	if ferr != nil {
 		c.Fail("harness/frozen-parser", "independent parser rejects Freeze output: %v", ferr)
 		return
+	}
+	if r.Chance(0.3) {
+		c.Step("the valid frozen image through every decoder (fresh and previously used receivers)")
+		feedValid(c, fz, m, true, "valid-frozen")
+		if c.Failed() {
+			return
+		}
 	}
 	bad, how := corruptFrozen(r, fz, fi)
 	c.Step("valid frozen stream (%d bytes, %v) corrupted by %s -> %d bytes; tail %x", len(fz), descSet(m), how, len(bad), bad[maxI(0, len(bad)-24):])
